@@ -14,6 +14,12 @@ def provider(fn):
     return fn
 
 
+def regenerate():
+    """translators behind the models the overlay theorems import (run by C11 / C12 / C15)"""
+    from checks.seqcommon import regenerate_vecprims
+    return regenerate_vecprims()
+
+
 def all_streams(check, prop):
     out = []
     for p in PROVIDERS:
